@@ -373,3 +373,71 @@ func c18CancelWithUnaryInFlight(r *Run) {
 	r.Eval("cancelinflight", true)
 	r.Count("c18.cancelinflight")
 }
+
+// c18BlockedWriteThenCancel: the shared transport is not being drained. A first Write on a logical
+// connection is accepted (its envelope sits with the key's writer), a second Write — on a context that
+// never ends — waits behind it. Then the key is cancelled: the waiting Write fails instead of blocking
+// for ever, and so does any later one.
+func c18BlockedWriteThenCancel(r *Run) {
+	if !r.Want("blockedwrite") {
+		return
+	}
+	for rep, reps := 0, r.Scale(3, 30); rep < reps && r.NumViolations() <= 4; rep++ {
+		in := map[string]any{"rep": rep}
+		r.Progress("blockedwrite", in)
+		shared := NewScript(0) // unbuffered Out, nobody reads it
+		ctx, cancel := context.WithCancel(context.Background())
+		conns := make(chan goat.RpcReadWriter, 2)
+		dm := goat.NewDemux(ctx, shared, func(e *Rpc) string { return e.GetHeader().GetSource() }, func(rw goat.RpcReadWriter) { conns <- rw })
+		ran := make(chan struct{})
+		go func() { defer close(ran); dm.Run() }()
+		finish := func() {
+			dm.Stop()
+			cancel()
+			shared.FailRead(errInjectedRead)
+			shared.FailWrite(errInjectedWrite)
+			within(hangTimeout, func() { <-ran })
+		}
+		shared.In <- &Rpc{Id: 1, Header: &goatorepo.RequestHeader{Source: "k"}}
+		var lc goat.RpcReadWriter
+		select {
+		case lc = <-conns:
+		case <-time.After(hangTimeout):
+			r.Violate("blockedwrite.setup", "ops", "no logical connection announced", in, nil, nil)
+			finish()
+			return
+		}
+		env := func(id uint64) *Rpc {
+			return &Rpc{Id: id, Header: &goatorepo.RequestHeader{Source: "srv", Destination: "k"}}
+		}
+		first := make(chan error, 1)
+		go func() { first <- lc.Write(context.Background(), env(10)) }()
+		time.Sleep(5 * time.Millisecond)
+		second := make(chan error, 1)
+		go func() { second <- lc.Write(context.Background(), env(11)) }()
+		time.Sleep(5 * time.Millisecond)
+		dm.Cancel("k")
+		good := true
+		for name, ch := range map[string]chan error{"the Write that was waiting for the key's writer": second, "the Write whose envelope the writer held": first} {
+			select {
+			case err := <-ch:
+				_ = err // nil (accepted before the cancel) or an error: both are answers
+			case <-time.After(hangTimeout):
+				r.Violate("blockedwrite.hang", "ops", "after its key was cancelled, "+name+" is still blocked", in, goroutineDump(), "returns")
+				good = false
+			}
+		}
+		if good {
+			var err error
+			if !within(hangTimeout, func() { err = lc.Write(context.Background(), env(12)) }) || err == nil {
+				r.Violate("blockedwrite.after", "ops", "a Write issued after the key was cancelled did not fail", in, fmt.Sprint(err), "an error")
+			}
+		}
+		r.Eval(fmt.Sprintf("blockedwrite/%d", rep), true)
+		r.Count("c18.blockedwrite")
+		finish()
+		if !good {
+			return
+		}
+	}
+}
